@@ -301,6 +301,8 @@ class Engine:
                 vc.detail = detail
                 if fr.contract is not None and fr.contract.depth is not None:
                     vc.depth = fr.contract.depth
+                if fr.contract is not None:
+                    vc.reveal = tuple(fr.contract.reveal)
                 self.vcs[dig] = vc
                 self.order.append(dig)
         else:
@@ -440,6 +442,13 @@ class Engine:
 
     def _params_init(self, c, fr):
         for name, ty in c.params.items():
+            if name in c.param_values:
+                fr.env[name] = c.param_values[name]
+            elif ty == TAny:
+                fr.env[name] = None
+            else:
+                fr.env[name] = self.fresh_of(name, ty)
+        for name, ty in c.ghost.items():
             fr.env[name] = self.fresh_of(name, ty)
 
     def fresh_of(self, name, ty, assume_inv=True):
@@ -470,8 +479,39 @@ class Engine:
         return self.fresh(name, ty)
 
     def fresh_dict(self, name, ty):
+        """a dict received from outside: well-formedness of the insertion-ordered key sequence (B4) is assumed"""
+        from . import speclib
         d = self.fresh(name, ty)
+        self.fresh_ctr += 1
+        w = z3.Const("w!%d" % self.fresh_ctr, sort(ty.key))
+        kp = speclib.dkpos_fn(ty)
+        dk = speclib.dkeys_fn(ty)(d.t)
+        s_ = sort(TOpt(ty.val))
+        self.assume(z3.ForAll([w], z3.Implies(z3.Not(s_.is_none(z3.Select(d.t, w))),
+                                              z3.And(kp(d.t, w) >= 0, kp(d.t, w) < z3.Length(dk), dk[kp(d.t, w)] == w)),
+                              patterns=[kp(d.t, w)]))
         return d
+
+    def reachable(self, v, acc=None):
+        acc = set() if acc is None else acc
+        if isinstance(v, Ref):
+            if v.cid in acc:
+                return acc
+            acc.add(v.cid)
+            c = self.cell(v)
+            if c[0] == "obj":
+                for x in c[2].values():
+                    self.reachable(x, acc)
+            elif c[0] == "pylist":
+                for x in c[1]:
+                    self.reachable(x, acc)
+            elif c[0] == "pydict":
+                for x in c[1].values():
+                    self.reachable(x, acc)
+        elif isinstance(v, tuple):
+            for x in v:
+                self.reachable(x, acc)
+        return acc
 
     def assume_invariant(self, ref):
         cd = self.cell(ref)[1]
@@ -505,6 +545,9 @@ class Engine:
             self.assume(self.spec_bool(r, fr.env))
         self.entry_env = dict(fr.env)
         self.entry_heap = dict(self.heap)
+        self.frame_ok = set()
+        for m in c.modifies:
+            self.frame_ok |= self.reachable(fr.env.get(m))
         self.old_stack.append((self.entry_env, self.entry_heap))
         for (ln, exprs) in c.hints:
             self.add_hint(ln, exprs, fr.env)
@@ -933,6 +976,8 @@ class Engine:
         c = fr.contract
         spec = (c.loops.get(k) if c else None)
         unroll = (c.unroll.get(k) if c else None)
+        if spec is None and unroll is None and c is not None and c.frame_only:
+            spec = {"invariant": [], "types": c.locals}
         return k, spec, unroll
 
     def havoc_loop(self, body, fr, spec, extra_names=()):
@@ -1059,10 +1104,13 @@ class Engine:
             if isinstance(v.ty, TList):
                 return IterDesc(z3.Length(v.t), lambda k: self.unbox(SV(v.t[z3_int(k)], v.ty.elem)))
             if isinstance(v.ty, TDict):
+                from . import speclib
                 ks = self.dkeys(v)
                 s = sort(TOpt(v.ty.val))
+                kp = speclib.dkpos_fn(v.ty)
                 return IterDesc(z3.Length(ks), lambda k: self.unbox(SV(ks[z3_int(k)], v.ty.key)),
-                                lambda k: [z3.Not(s.is_none(z3.Select(v.t, ks[z3_int(k)])))])
+                                lambda k: [z3.Not(s.is_none(z3.Select(v.t, ks[z3_int(k)]))),
+                                           kp(v.t, ks[z3_int(k)]) == z3_int(k)])
         if isinstance(v, Ref):
             c = self.cell(v)
             if c[0] == "pylist":
@@ -1204,6 +1252,15 @@ class Engine:
 
     # ------------------------------------------------------------------ assignment
     def assign(self, target, v, fr):
+        from .externals import Unpickled, resolve_unpickled
+        if isinstance(v, Unpickled):
+            c = fr.contract
+            names = [target.id] if isinstance(target, ast.Name) else [
+                t.id for t in getattr(target, "elts", []) if isinstance(t, ast.Name)]
+            if c is None or not names or any(n not in c.locals for n in names):
+                raise Unsupported("pickle.loads result needs declared local types (%s)" % names)
+            ty = c.locals[names[0]] if isinstance(target, ast.Name) else TTuple(*[c.locals[n] for n in names])
+            v = resolve_unpickled(self, v, ty)
         if isinstance(target, ast.Name):
             c = fr.contract
             if c is not None and target.id in c.locals and isinstance(v, Ref):
@@ -1265,10 +1322,16 @@ class Engine:
         raise Unsupported("attribute store on %r" % (obj,))
 
     def is_borrowed(self, ref):
-        return False
+        """a heap cell that existed when the verified function was entered and is not in its `modifies` frame"""
+        if self.spec_mode or not hasattr(self, "entry_heap"):
+            return False
+        if ref.cid not in self.entry_heap:
+            return False
+        return ref.cid not in getattr(self, "frame_ok", set())
 
     def frame_violation(self, ref, node, what):
-        pass
+        self.oblige("frame", False, getattr(node, "lineno", 0),
+                    "%s mutates an object that belongs to the caller (reachable from a parameter)" % what)
 
     # ------------------------------------------------------------------ expressions
     def eval(self, e, fr):
@@ -1315,7 +1378,13 @@ class Engine:
             return ClassRef("%s:%s" % (mod.rel, n))
         if kind == "assign":
             try:
-                return ast.literal_eval(a)
+                lit = ast.literal_eval(a)
+                if isinstance(lit, dict):
+                    # module-level mutable dict (a cache): modelled as holding its initial contents at every read
+                    return self.alloc(("pydict", dict(lit)))
+                if isinstance(lit, list):
+                    return self.alloc(("pylist", list(lit)))
+                return lit
             except Exception:
                 pass
             fr = Frame(mod.rel + ":<module>", mod, None, None, {})
